@@ -31,7 +31,8 @@ def check(pid, tier):
     if len(cfgs) > cap:
         cfgs = rng.sample(cfgs, cap)
         ev.cov["exhaustive"] = False
-    jobs = [(c, None, lim) for c in cfgs for lim in (None, 0, 8, 20)]
+    # composition-wide limits, and limits set on the slots themselves (location from the composition)
+    jobs = [(c, None, lim) for c in cfgs for lim in (None, 0, 8, 20)] + [(c, None, None, lim) for c in cfgs for lim in (0, 12)]
     traces = run_configs(jobs)
     herr = [t for t in traces if "harness_error" in t]
     if herr:
@@ -42,14 +43,15 @@ def check(pid, tier):
     ev.add_traces("Sched_Trace/memory-limits", acc, tot, gen)
     # a trace rejected under a limit although the unlimited run of the same configuration is
     # accepted means the limit was visible -> C10, whatever clause tripped
-    unlimited_ok = {jdump(t["cfg"]) for k, t in enumerate(traces) if t["end"]["limit"] == -1 and k not in bad}
+    unlimited_ok = {jdump(t["cfg"]) for k, t in enumerate(traces)
+                    if t["end"]["limit"] == -1 and t["end"]["slot_limit"] == -1 and k not in bad}
     series = {}
     for k, t in enumerate(traces):
-        series.setdefault(jdump(t["cfg"]), {})[t["end"]["limit"]] = jdump([t["end"]["out"], t["end"]["series"]])
+        series.setdefault(jdump(t["cfg"]), {})[(t["end"]["limit"], t["end"]["slot_limit"])] = jdump([t["end"]["out"], t["end"]["series"]])
     for k, verdict in sorted(bad.items()):
         t = traces[k]
         p = sched_property(verdict, t["cfg"])
-        if t["end"]["limit"] != -1 and jdump(t["cfg"]) in unlimited_ok:
+        if (t["end"]["limit"] != -1 or t["end"]["slot_limit"] != -1) and jdump(t["cfg"]) in unlimited_ok:
             p = PID
         if p != PID:
             continue
@@ -60,7 +62,7 @@ def check(pid, tier):
     for key, by in series.items():
         if len(set(by.values())) > 1:
             path = "(not saved)"
-            violations.append((pid, f"delivered series differs between memory limits {sorted(by)} for {key[:200]}", path))
+            violations.append((pid, f"delivered series differs between memory limits {sorted(map(str, by))} for {key[:200]}", path))
     return finish(pid, ev, out_lines, violations, machinery)
 
 
